@@ -210,3 +210,13 @@ Proof.
     junk4.
   split; [repeat constructor|split; vm_compute; reflexivity].
 Qed.
+
+(* the batch length is protected by the checksum alone when every column uses the bulk custom
+   codec: bit 24 of this stream is bit 0 of the value byte of the length token (3 rows -> 2 rows);
+   the two remaining rows would decode, the checksum does not verify *)
+Example length_flip_bulk_example :
+  toy_reads code_cfg [KCodecBulk] (flip_bit (toy_encode [KCodecBulk] [[[[5];[0];[9]]]]%Z) 24) junk4
+  = [RErr EIntegrity; RErr EIntegrity]
+  /\ toy_reads code_cfg [KCodecBulk] (toy_encode [KCodecBulk] [[[[5];[0];[9]]]]%Z) junk4
+  = [ROk 3 [[[5];[0];[9]]]%Z; RErr EEOF].
+Proof. split; vm_compute; reflexivity. Qed.
